@@ -20,7 +20,7 @@ impl<'a> Assembler<'a> {
         len: usize,
     ) -> Result<(), RtcmError> {
         #[cfg(all(rtcm_rs_verif, feature = "std"))]
-        if crate::verif_hooks::on_put() {
+        if crate::verif_hooks::on_put(len) {
             return Err(RtcmError::BufferOverflow);
         }
         if self.data.len() * 8 < self.offset + len {
